@@ -303,7 +303,41 @@ void NTT_Goldilocks::reversePermutation(Goldilocks::Element *dst, Goldilocks::El
         }
         else
         {
-            assert(0); // Option not implemented yet
+            // in place with zero padding: rows at or beyond ext_ hold no input and read as zero
+            assert(offset_cols == 0 && ncols == ncols_all); // single block
+            u_int64_t ext_ = (size / extension) * ncols_all;
+#pragma omp parallel for schedule(static)
+            for (u_int64_t i = 0; i < size; i++)
+            {
+                u_int64_t r = BR(i, domainSize);
+                u_int64_t offset_r = r * ncols;
+                u_int64_t offset_i = i * ncols;
+                if (r < i)
+                {
+                    Goldilocks::Element tmp[ncols];
+                    if (offset_r < ext_)
+                    {
+                        std::memcpy(&tmp[0], &src[offset_r], ncols * sizeof(Goldilocks::Element));
+                    }
+                    else
+                    {
+                        std::memset(&tmp[0], 0, ncols * sizeof(Goldilocks::Element));
+                    }
+                    if (offset_i < ext_)
+                    {
+                        std::memcpy(&dst[offset_r], &src[offset_i], ncols * sizeof(Goldilocks::Element));
+                    }
+                    else
+                    {
+                        std::memset(&dst[offset_r], 0, ncols * sizeof(Goldilocks::Element));
+                    }
+                    std::memcpy(&dst[offset_i], &tmp[0], ncols * sizeof(Goldilocks::Element));
+                }
+                else if (r == i && offset_i >= ext_)
+                {
+                    std::memset(&dst[offset_i], 0, ncols * sizeof(Goldilocks::Element));
+                }
+            }
         }
     }
 }
